@@ -301,6 +301,23 @@ func (db *DB) replayAndSetupWriteAheadLog() error {
 		log.Printf("done replaying WAL in %v with %d records\n", elapsedDuration, numRecords)
 	}
 
+	// the WAL files must go oldest first: if this process dies in between, the next recovery replays whatever is left as
+	// the newest data. A remaining suffix of the log is harmless (its final values are the final values of the whole log,
+	// which is already in a table), any other subset would bring back overwritten values and deleted keys.
+	// os.RemoveAll alone removes in directory order, which depends on the file system.
+	walEntries, err := os.ReadDir(walBasePath)
+	if err != nil {
+		return err
+	}
+	for _, entry := range walEntries {
+		if !entry.IsDir() {
+			err = os.Remove(filepath.Join(walBasePath, entry.Name()))
+			if err != nil {
+				return err
+			}
+		}
+	}
+
 	err = os.RemoveAll(walBasePath)
 	if err != nil {
 		return err
